@@ -49,6 +49,8 @@ var checks = []Check{
 		Jobs: []Job{
 			{Pkg: "controller", Scenarios: []string{"C08/histories"}, Shards: 16, QuickS: 100, ThoroughS: 900},
 			{Pkg: "controller", Scenarios: []string{"C08/race", "C08/streams"}, Shards: 16, QuickS: 60, ThoroughS: 600},
+			{Pkg: "controller", Scenarios: []string{"C08/slow-controller"}, Shards: 16, QuickS: 60, ThoroughS: 600},
+			{Pkg: "config", Scenarios: []string{"C08/discovery"}, Shards: 16, QuickS: 60, ThoroughS: 600},
 		},
 	},
 	{
@@ -92,6 +94,7 @@ var checks = []Check{
 			{Pkg: "proc", Scenarios: []string{"C09/listener"}, Shards: 16, QuickS: 80, ThoroughS: 600},
 			{Pkg: "proc", Scenarios: []string{"C09/limit"}, Shards: 8, QuickS: 60, ThoroughS: 300},
 			{Pkg: "proc/redis", Scenarios: []string{"C09/redis-stop"}, Shards: 16, QuickS: 80, ThoroughS: 600},
+			{Pkg: "proc/redis", Scenarios: []string{"C09/redis-collect"}, Shards: 16, QuickS: 80, ThoroughS: 600},
 			{Pkg: "proc/tcp", Scenarios: []string{"C09/tcp-stop"}, Shards: 16, QuickS: 60, ThoroughS: 600},
 			{Pkg: "controller", Scenarios: []string{"C09/controller"}, Shards: 16, QuickS: 60, ThoroughS: 600},
 		},
